@@ -3,6 +3,7 @@
 use crate::core::{Case, Ctx, Stats, Tier};
 use crate::runner::RunOpts;
 
+pub mod parsing;
 pub mod steps;
 
 pub trait Check: Sync {
@@ -24,16 +25,20 @@ pub trait Check: Sync {
 
 pub fn all() -> Vec<&'static dyn Check> {
     vec![
+        &parsing::C02,
+        &parsing::C03,
         &steps::C04,
         &steps::C05,
         &steps::C06,
         &steps::C07,
         &steps::C08,
+        &parsing::C11,
         &steps::C12,
         &steps::C13,
         &steps::C14,
         &steps::C16,
         &steps::C18,
+        &parsing::C19,
     ]
 }
 
